@@ -4,12 +4,17 @@
 import Pyab.Spec.Lifecycle
 import Pyab.Proofs.Lifecycle
 import Pyab.Generated.Pipeline
+import Pyab.Generated.Config
 namespace Pyab.Properties
 open Pyab Pyab.Spec
 
 /-- **table obligation**: the checksum is stored only after the new text has compiled
     (a failed recompile is not remembered as "already compiled") -/
 theorem C11_checksum_after_compile : Generated.pipeline.checksumEarly = false := by decide
+
+/-- **table obligation**: a source is identified by a collision-resistant digest (MD5 / SHA / BLAKE
+    family) of its exact UTF-8 text — what makes the `distinct digests` hypothesis below reasonable -/
+theorem C11_digest_collision_resistant : Generated.checksumCollisionResistant = true := by decide
 
 /-- **Refinement.** After any sequence of constructions, recompiles with valid or invalid
     text and calls, over any set of evaluators, every operation returns exactly what the
